@@ -12,7 +12,7 @@ LEVEL_TEXT = ("Static structural proof of necessary conditions: (R19.1) the port
               "the same function; (R19.3) functions that write into the cache are reachable only from inside a "
               "`with CacheLock(...)` body; (R19.4) no `except A or B` handler. Mutual exclusion and crash "
               "consistency as properties of executions, timeouts and refresh intervals are NOT decided.")
-LEVEL_EXTRA = 'Added after the seeded evaluation: (R19.2) the temporary name cannot equal the final name (callers pass a temporary file); (R19.5) the lock file is never removed or renamed; (R19.6) a lock body that fetches from the network keeps write_time on.'
+LEVEL_EXTRA = 'Added after the seeded evaluation: (R19.2) the temporary name cannot equal the final name (callers pass a temporary file); (R19.5) the lock file is never removed or renamed; (R19.6) a lock body that fetches from the network keeps write_time on. (R19.7) looking up a version that is missing from the cache folder (re)runs the local population.'
 
 MODULES = ["hed.schema.hed_cache", "hed.schema.hed_cache_lock"]
 HANDLER_MODULES = MODULES + ["hed.schema.hed_schema_io", "hed.schema.schema_io.schema_util"]
@@ -304,3 +304,22 @@ def run(ctx):
                           "can change within the interval" % (norm(fetches[0])[:50], norm(wt) if wt is not None else "?"),
                           desc="network refresh in %s records its time" % f.short)
     ctx.floor("R19.6", "lock bodies that fetch from the network", n_fetch_sites, 2)
+
+    # ---------------- R19.7: an incomplete cache is completed when a bundled version is asked for
+    ctx.rule("R19.7", "looking a version up (re)copies the bundled schemas when that version is missing, not only when the folder is empty")
+    gvp = prog.find_function("hed_cache.get_hed_version_path")
+    ctx.saw(gvp)
+    v7 = view(ctx, gvp)
+    pops = [(n_, c) for (n_, c) in v7.calls(lambda c: call_name(c) in ("cache_local_versions", "_copy_installed_folder_to_cache"))]
+    vparam = gvp.params()[0]
+    ok7 = False
+    for n_, c in pops:
+        g = v7.guard_for(n_, lambda t: any(isinstance(x, ast.Compare) and any(isinstance(o, (ast.In, ast.NotIn)) for o in x.ops)
+                                           and any(isinstance(y, ast.Name) and y.id == vparam for y in ast.walk(x)) for x in ast.walk(t)))
+        if g is not None:
+            ok7 = True
+    ctx.check(ok7, "R19.7", gvp.qualname, "population on a missing version", loc(gvp, gvp.node),
+              "the bundled schemas are copied into the cache only when the folder listing is empty (get_hed_versions); a population "
+              "that was interrupted leaves a non-empty folder (the lock file, some of the schemas, a stale .tmp), and from then on "
+              "every load of a version that is not there yet fails with fileNotFound instead of returning the bundled schema",
+              desc="missing version triggers (re)population from the bundled schemas")
